@@ -663,11 +663,6 @@ func (sw *SlidingWindow) Trigger() {
 	// Lock to ensure thread safety
 	sw.mu.Lock()
 
-	// Return directly if no data in window
-	if len(sw.data) == 0 {
-		sw.mu.Unlock()
-		return
-	}
 	if !sw.initialized {
 		sw.mu.Unlock()
 		return
@@ -681,7 +676,10 @@ func (sw *SlidingWindow) Trigger() {
 	}
 
 	// Processing time logic
-	// Calculate next slot for sliding window
+	// Calculate next slot for sliding window. The cursor advances on every tick,
+	// also while the window holds no data: a cursor that stands still during an
+	// idle period lags behind the clock by that period ever after, and every
+	// later row is reported that much too late.
 	next := sw.NextSlot()
 	if next == nil {
 		sw.mu.Unlock()
